@@ -151,8 +151,10 @@ Definition method_cms (s : svc) : list client_method :=
   map (fun m => mkCM (client_name m) Table (key_of m)) (s_methods s).
 Definition mixin_cms (s : svc) : list client_method :=
   map (fun n => mkCM (snake n) Table (snake n)) (mixins_emitted CLIENT_MIXIN_ORDER s).
+(* the legacy IAM methods wrap the transport attribute on the fly, in both clients (the asyncio client used to ask the
+   table, which has no such entries: fixed in /repo by "wrap the legacy IAM methods of the asyncio client as the sync client does") *)
 Definition legacy_iam_cms (v : variant) (s : svc) : list client_method :=
-  if s_add_iam s then map (fun kn => mkCM (fst kn) (match v with Sync => Direct | Async => Table end) (fst kn)) IAM_LEGACY
+  if s_add_iam s then map (fun kn => mkCM (fst kn) Direct (fst kn)) IAM_LEGACY
   else [].
 (* the rpc-calling methods of the client class, in the order of definition *)
 Definition client_methods (v : variant) (s : svc) : list client_method :=
